@@ -58,6 +58,9 @@ type Ctx struct {
 	roles     map[string]string
 	ren       *renameMap
 	roleOwner map[string]*types.TypeName
+
+	globalMaps map[*ssa.Global]*mapContents // ext_x5.go
+	consumers  map[*ssa.Function]bool       // ext_x5.go
 }
 
 func (c *Ctx) load() {
